@@ -282,6 +282,56 @@ def classify_e2e(a, o):
     return "faithful" if r == R.EXPECTED else "not-faithful"
 
 
+# ------------------------------------------------------------------ dict.leafdec: a field of a converter type
+LEAF_TEXTS = {
+    "XmlDate": ["2001-01-31", "2001-02-30", " 2001-01-31Z ", "2001-01-31+01:00", "-0044-03-15", "2001-1-31", "", "abc", "2024-02-29-05:00"],
+    "XmlTime": ["12:00:00", "24:00:00", "23:59:59.123", "12:00:00Z", "12:00", " 01:02:03 ", "x"],
+    "XmlDateTime": ["2001-01-31T12:00:00", "2001-01-31T24:00:00", "2001-01-31T12:00:00.5+02:00", "2001-01-31", "  2001-01-31T00:00:00Z"],
+    "XmlDuration": ["P1D", "-P1D", "PT0S", "P1Y2M3DT4H5M6.7S", "PT", "P", " P400D ", "1D"],
+    "XmlPeriod": ["2001", "--01", "---31", "--02-30", "2001-13", "x"],
+    "Decimal": ["1.50", "0", "-0.001", "1E+3", "abc", "NaN", " 7 ", "INF", "-INF", "1_0", "0x10", "+5", ".5", "5."],
+}
+
+
+def gen_leafdec(rng, tier):
+    for name, texts in LEAF_TEXTS.items():
+        for t in texts:
+            for strict in (False, True):
+                yield {"type": name, "text": t, "config": {"fail_on_converter_warnings": strict}}
+
+
+_LEAF_CLASSES = {}
+
+
+def impl_leafdec(a):
+    import warnings
+    from dataclasses import field, make_dataclass
+    from decimal import Decimal
+    from typing import Optional
+
+    from xsdata.formats.converter import converter
+    from xsdata.formats.dataclass.parsers import DictDecoder
+    from xsdata.formats.dataclass.parsers.config import ParserConfig
+    from xsdata.models import datatype as dt
+
+    tp = {"Decimal": Decimal}.get(a["type"]) or getattr(dt, a["type"])
+    if a["type"] not in _LEAF_CLASSES:
+        _LEAF_CLASSES[a["type"]] = make_dataclass("LeafHolder", [("f", Optional[tp], field(default=None, metadata={"type": "Element"}))])
+    cls = _LEAF_CLASSES[a["type"]]
+    with warnings.catch_warnings():
+        warnings.simplefilter("ignore")
+        try:
+            obj = DictDecoder(config=ParserConfig(**a["config"])).decode({"f": a["text"]}, cls)
+        except Exception as e:  # noqa: BLE001
+            return B.classify_exc(e)
+    v = obj.f
+    return {"ok": {"str": v if isinstance(v, str) else converter.serialize(v)}}
+
+
+def classify_leafdec(a, o):
+    return f"{a['type']}:{'strict' if a['config']['fail_on_converter_warnings'] else 'lenient'}:{'ok' if 'ok' in o else o.get('err')}"
+
+
 # ------------------------------------------------------------------ dict.valok: the hypothesis of dict_rt on real universes
 def gen_valok(rng, tier):
     for u, desc, ctx, obj in instances(rng, tier, n_cases(tier, 80, 900), 5):
@@ -413,6 +463,10 @@ CORRS = [
                   "explicit / list / detected target"),
     Corr("dict.roundtrip", gen_rt, impl_rt, compare=cmp_member, classify=classify_rt,
          describe="real encode+decode (dict and JSON text routes) vs model encode+decode"),
+    Corr("dict.leafdec", gen_leafdec, impl_leafdec, compare=cmp_skip, classify=classify_leafdec,
+         describe="bind_text of a JSON string for a field of a converter type (XmlDate, XmlTime, XmlDateTime, XmlDuration, XmlPeriod, "
+                  "Decimal) vs the leaf branch of bindTextPlain with the C05 converter models as DEnv.other: canonical form kept, "
+                  "invalid text kept with a warning / ParserError"),
     Corr("dict.valok", gen_valok, impl_valok, compare=cmp_valok, classify=classify_valok,
          describe="the decidable hypothesis of dict_rt (valOKj, valOKu, noSubclassPools) evaluated by the driver on generated universes and "
                   "instances; whenever it holds the real DictEncoder/DictDecoder and JsonSerializer/JsonParser must give the object back"),
@@ -447,7 +501,8 @@ LEVEL_TEXT = (
     "lists and wrapped lists of both, tokens fields, compound fields (primitives by exact type, instances singled out by their keys), "
     "xs:anyAttribute maps, wildcard fields (single, list, mixed) holding generic AnyElements of any nesting, primitives and None; both "
     "dictionary factories, every parser config: dict_rt, dict_rt_universe (typing suffices in universes without subclass pools), list_rt, "
-    "json_rt, encode_json_native, best_match_unique; Props/C04Wrap.lean: the wrapped flag and Enum members of the encoder "
+    "json_rt, encode_json_native, best_match_unique; fields of converter types (XmlDate, XmlTime, XmlDateTime, int enums, … : any LeafRT, "
+    "Props/C04Leaf.lean: leaf_value_in_fragment, leaf_field_rt, dict_rt_leaf_example) held as canonical lexical forms; Props/C04Wrap.lean: the wrapped flag and Enum members of the encoder "
     "(wrapper_once, wrapped_enum_list). The op dict.valok evaluates the hypotheses on generated universes (about 85 % of the instances "
     "are inside the fragment) and demands the real round trip whenever they hold. The full-strength statement is still refuted by two "
     "witnesses on real exported contexts that are inherent in the untagged JSON shape (subclass ambiguity, model instance under a "
